@@ -269,11 +269,32 @@ func eligibleUnplacedAny(sc *h1.Scenario, rep *h1.Replica, ro *h1.RepObs) []uint
 
 func init() {
 	chk.Register("C04", func(c *chk.Ctx) {
-		bound := 1
-		if c.Thorough() {
-			bound = 2
+		nontrivial := func(sc *h1.Scenario, o *h1.Obs) bool {
+			rep := &sc.Cycles[0][0]
+			for si := range rep.Shards {
+				if p := h1.TargetsPost(o.Cycles[0].Reps[0].Reqs[si]); p != nil {
+					for h := range h1.Posted(p) {
+						if _, had := rep.Shards[si].Status[h]; !had {
+							return true
+						}
+					}
+				}
+			}
+			return false
 		}
-		runH1(c, bound, c04Gen(c.Thorough()), c04Oracle, func(sc *h1.Scenario, o *h1.Obs) bool {
+		if c.Thorough() {
+			// two order deviations on the two-shard scenarios of the quick grammar (the placement loops are
+			// order-dependent); one deviation on the full thorough grammar below
+			two := func(emit func(*h1.Scenario)) {
+				c04Gen(false)(func(sc *h1.Scenario) {
+					if len(sc.Cycles[0][0].Shards) == 2 {
+						emit(sc)
+					}
+				})
+			}
+			runH1(c, 2, two, c04Oracle, nontrivial)
+		}
+		runH1(c, 1, c04Gen(c.Thorough()), c04Oracle, func(sc *h1.Scenario, o *h1.Obs) bool {
 			rep := &sc.Cycles[0][0]
 			for si := range rep.Shards {
 				if p := h1.TargetsPost(o.Cycles[0].Reps[0].Reqs[si]); p != nil {
